@@ -483,6 +483,21 @@ func (e *Engine) havocLocation(env *Env, st *State, loc Expr) {
 	pre := env.with(env.oldSt)
 	switch x := loc.(type) {
 	case EField:
+		if id, ok := x.X.(EIdent); ok && id.Name == "\\any" {
+			// \any.g: the ghost field g of every object
+			g, ok := e.contracts.Ghosts[x.Name]
+			if !ok {
+				cerr("assigns \\any.%s: not a ghost field", x.Name)
+			}
+			for _, k := range ghostKeys(g) {
+				fv := e.ctx.Declare("hv$"+x.Name, k.sort)
+				if isGhostLen(k.name) {
+					e.ctx.Assume(fmt.Sprintf("(forall ((r Int)) (<= 0 (select %s r)))", fv))
+				}
+				e.heapSet(st, k.name, k.sort, "", fv)
+			}
+			return
+		}
 		base := pre.eval(x.X)
 		ref := base.T
 		if base.K == KIface {
@@ -652,8 +667,20 @@ func (e *Engine) checkFrame(fr *Frame, st *State, pos string) {
 		if now == was {
 			continue
 		}
+		if k == "G$allocd" {
+			continue // the allocation counter: any function may allocate
+		}
 		if strings.HasPrefix(k, "B$") {
 			continue // box memory holds only immutable boxed values under fresh ids
+		}
+		whole := false
+		for _, a := range allowed[k] {
+			if a == "*" {
+				whole = true
+			}
+		}
+		if whole {
+			continue
 		}
 		r := e.ctx.Declare("fr", "Int")
 		var excl []string
@@ -670,6 +697,15 @@ func (e *Engine) checkFrame(fr *Frame, st *State, pos string) {
 func (e *Engine) allowedLocation(env *Env, loc Expr, allowed map[string][]string) {
 	switch x := loc.(type) {
 	case EField:
+		if id, ok := x.X.(EIdent); ok && id.Name == "\\any" {
+			if g, ok := e.contracts.Ghosts[x.Name]; ok {
+				for _, k := range ghostKeys(g) {
+					allowed[k.name] = append(allowed[k.name], "*")
+				}
+				return
+			}
+			cerr("assigns \\any.%s: not a ghost field", x.Name)
+		}
 		base := env.eval(x.X)
 		ref := base.T
 		if base.K == KIface {
